@@ -1,9 +1,9 @@
 // append-to: src/line.rs
 // harness: k_line_trailers props=C10,C09 fns=Line::trailers,Line::is_blank kind=bounded tier=quick timeout=600 obligation=Line::trailers/E1+Line::trim/E1+Line::is_blank/E1 bound="width <= 3, cells from {default blank, 'a', blank with a non-default pen}"
 // harness: k_line_expand props=C10,C02 fns=Line::expand kind=bounded tier=quick timeout=600 obligation=Line::expand/E1 bound="width <= 2 expanded to <= 3, symbolic pen flag"
-// harness: k_line_contract_1 props=C10 fns=Line::trailers kind=bounded tier=thorough timeout=900 obligation=Line::contract(no cell lost or invented; only trailing default cells of an unwrapped row dropped) bound="row width 1..3 contracted to 1"
+// harness: k_line_contract_1 props=C10 fns=Line::trailers kind=bounded tier=thorough timeout=900 obligation="Line::contract(no cell lost or invented; only trailing default cells of an unwrapped row dropped)" bound="row width 1..3 contracted to 1"
 // harness: k_line_contract_2 props=C10 fns=Line::trailers kind=bounded tier=thorough timeout=900 obligation=Line::contract bound="row width 1..3 contracted to 2"
-// harness: k_line_extend_2 props=C10 fns=Line::trailers,Line::expand kind=bounded tier=thorough timeout=1800 obligation=Line::extend(join of the two rows is kept cell for cell; only trailing default cells of a row that ends its logical line are dropped) bound="row of width 0..2 extended to 2 from a row of width 1..2"
+// harness: k_line_extend_2 props=C10 fns=Line::trailers,Line::expand kind=bounded tier=thorough timeout=1800 obligation="Line::extend(join of the two rows is kept cell for cell; only trailing default cells of a row that ends its logical line are dropped)" bound="row of width 0..2 extended to 2 from a row of width 1..2"
 #[cfg(kani)]
 mod verif_kani_line {
     use super::*;
